@@ -130,32 +130,33 @@ def literal_alternatives(lark: Lark, tname: str) -> set[str] | None:
 
 
 def _literal_alts(parsed):
-    """list of strings if the regex is a (possibly flagged / grouped) alternation of literals"""
-    items = list(parsed)
-
-    def lit_seq(seq):
-        s = ''
-        for op, av in seq:
-            if op is sre_parse.LITERAL:
-                s += chr(av)
-            elif op is sre_parse.IN and len(av) == 2 and all(o is sre_parse.LITERAL for o, _ in av) \
-                    and chr(av[0][1]).lower() == chr(av[1][1]).lower():
-                s += chr(av[0][1])
-            else:
-                return None
-        return s
-    if len(items) == 1 and items[0][0] is sre_parse.SUBPATTERN:
-        return _literal_alts(items[0][1][3])
-    if len(items) == 1 and items[0][0] is sre_parse.BRANCH:
-        out = []
-        for alt in items[0][1][1]:
-            sub = _literal_alts(alt)
+    """all strings matched by a regex built only from literals, caseless letter pairs, groups and
+    alternations (re._parser factors common prefixes, so sequences may contain branches); else None"""
+    outs = ['']
+    for op, av in parsed:
+        if op is sre_parse.LITERAL:
+            outs = [o + chr(av) for o in outs]
+        elif op is sre_parse.IN and len(av) == 2 and all(o is sre_parse.LITERAL for o, _ in av) \
+                and chr(av[0][1]).lower() == chr(av[1][1]).lower():
+            outs = [o + chr(av[0][1]) for o in outs]
+        elif op is sre_parse.SUBPATTERN:
+            sub = _literal_alts(av[3])
             if sub is None:
                 return None
-            out += sub
-        return out
-    s = lit_seq(items)
-    return None if s is None else [s]
+            outs = [o + x for o in outs for x in sub]
+        elif op is sre_parse.BRANCH:
+            subs = []
+            for alt in av[1]:
+                sub = _literal_alts(alt)
+                if sub is None:
+                    return None
+                subs += sub
+            outs = [o + x for o in outs for x in subs]
+        else:
+            return None
+        if len(outs) > 500:
+            return None
+    return outs
 
 
 def ignored(lark: Lark) -> list[str]:
